@@ -376,10 +376,15 @@ class Ctx:
 
 
 def load_known():
-    try:
-        return json.load(open(os.path.join(VERIF, "known_findings.json")))["findings"]
-    except OSError:
-        return []
+    """known findings are committed, one file per property: known_findings/<id>.json =
+    {"findings": [{"property", "signature", "status": "open"|"fixed", "what", "commit"?, "replay"?}]}"""
+    out = []
+    for p in sorted(glob.glob(os.path.join(VERIF, "known_findings", "*.json"))):
+        try:
+            out += json.load(open(p))["findings"]
+        except (OSError, ValueError, KeyError):
+            pass
+    return out
 
 
 BASE_TRUST = [
